@@ -544,6 +544,8 @@ def m_collect(it, st, callee, args, dest_tid, site):
     k = X.fresh(X.USIZE, 'k', 0, None, loop='collect')
     rec = LoopRec(('collect', site), None, site[0])
     rec.qvar = (k, usz(0), n)
+    from .resolve import register_range
+    register_range(k, usz(0), n)
     rec.iter_desc = d
     rec.pre_pc_len = len(st.pc)
     it.rec.loops.append(rec)
